@@ -603,6 +603,10 @@ def do_mapping(molecule, mappings, to_ff, attribute_keep=(), attribute_must=(), 
     modified_interactions = {}
     all_references = {}
     all_matches = []
+    # Atoms of the block matches applied so far. mol_to_out cannot be used to
+    # find overlapping blocks: an atom that contributes to no particle of an
+    # earlier block has no entry there.
+    block_matched_atoms = set()
     while block_matches or mod_matches:
         # Take the match with the lowest atom id, and prefer blocks over
         # modifications
@@ -620,6 +624,8 @@ def do_mapping(molecule, mappings, to_ff, attribute_keep=(), attribute_must=(), 
                                                              molecule, graph_out,
                                                              mol_to_out, out_to_mol)
             overlapping_mappings.update(overlap)
+            overlapping_mappings.update(block_matched_atoms.intersection(match[0]))
+            block_matched_atoms.update(match[0])
             none_to_one_mappings.update(none_to_one)
         all_matches.append(match)
         all_references.update(refs)
@@ -716,7 +722,7 @@ def do_mapping(molecule, mappings, to_ff, attribute_keep=(), attribute_must=(), 
                         for mol_idx in overlapping_mappings},
                        {format_atom_string(graph_out.nodes[out_idx], atomid='')
                         for mol_idx in overlapping_mappings
-                        for out_idx in mol_to_out[mol_idx]},
+                        for out_idx in mol_to_out.get(mol_idx, {})},
                        type='inconsistent-data')
 
     # "One to many" mapping - not necessarily a problem, unless it leads to
